@@ -32,9 +32,9 @@ func c10InAlpha(n byte, alpha int) bool {
 	return true
 }
 
-// c10Key: a symbolic key of 0..maxLen bytes over the nibble alphabet.
-func c10Key(name string, maxLen, alpha int) []byte {
-	k := vs.Bytes(name, maxLen)
+// c10Key: a symbolic key of minLen..maxLen bytes over the nibble alphabet.
+func c10Key(name string, minLen, maxLen, alpha int) []byte {
+	k := vs.BytesN(name, minLen+vs.Choice(name+".len", maxLen-minLen+1))
 	for i := range k {
 		vs.Assume(c10InAlpha(k[i]>>4, alpha))
 		vs.Assume(c10InAlpha(k[i]&15, alpha))
@@ -57,12 +57,14 @@ func c10Value(i int) []byte {
 }
 
 // c10Apply draws n operations and applies them to t with the real API.
-func c10Apply(t *Trie, n, maxLen, alpha int) []c10Op {
+// firstUpd: the first operation is an update (a delete on the empty trie is a
+// no-op, so those sequences are the sequences with one operation less).
+func c10Apply(t *Trie, n, minLen, maxLen, alpha int, firstUpd bool) []c10Op {
 	ops := make([]c10Op, n)
 	for i := 0; i < n; i++ {
-		ops[i].key = c10Key("k", maxLen, alpha)
+		ops[i].key = c10Key("k", minLen, maxLen, alpha)
 		var err error
-		if vs.Choice("del", 2) == 0 {
+		if (i == 0 && firstUpd) || vs.Choice("del", 2) == 0 {
 			ops[i].val = c10Value(i)
 			err = t.TryUpdate(ops[i].key, ops[i].val)
 		} else if i%2 == 0 {
@@ -94,6 +96,7 @@ func c10Live(ops []c10Op, i int) bool {
 // operation on a key wins, delete removes) holds for key q.  Written without
 // harness-side case splits: hit(i) = "operation i is the last one on q".
 func c10CheckRead(ops []c10Op, q, got []byte, what string) (present bool) {
+	ok := true
 	for i := range ops {
 		hit := c10Same(ops[i].key, q)
 		for j := i + 1; j < len(ops); j++ {
@@ -106,11 +109,15 @@ func c10CheckRead(ops []c10Op, q, got []byte, what string) (present bool) {
 		}
 		if hit {
 			present = true
+			if !c10Same(got, ops[i].val) {
+				ok = false // present key must read its last value
+			}
 		}
-		vs.Assert(!hit || c10Same(got, ops[i].val), what+": present key reads its last value")
 	}
-	vs.Assert(present || got == nil, what+": absent or deleted key reads nil")
-	vs.Assert(!present || got != nil, what+": present key does not read nil")
+	if present == (got == nil) {
+		ok = false // nil exactly for absent or deleted keys
+	}
+	vs.Assert(ok, what+" returns the reference content (last value of a live key, nil for an absent or deleted key)")
 	return present
 }
 
@@ -251,7 +258,7 @@ func VerifC10_TrieOpsDeep() { c10TrieOps() }
 func c10TrieOps() {
 	n := vs.Param("ops")
 	t := &Trie{}
-	ops := c10Apply(t, n, vs.Param("keylen"), vs.Param("alpha"))
+	ops := c10Apply(t, n, vs.Param("minlen"), vs.Param("keylen"), vs.Param("alpha"), vs.Param("firstupd") == 1)
 
 	// final content
 	live := make([]bool, n)
@@ -301,8 +308,8 @@ func c10TrieOps() {
 func VerifC10_TrieLookup() {
 	n := vs.Param("ops")
 	t := &Trie{}
-	ops := c10Apply(t, n, vs.Param("keylen"), vs.Param("alpha"))
-	q := c10Key("q", vs.Param("keylen"), vs.Param("alpha"))
+	ops := c10Apply(t, n, vs.Param("minlen"), vs.Param("keylen"), vs.Param("alpha"), vs.Param("firstupd") == 1)
+	q := c10Key("q", 0, vs.Param("keylen"), vs.Param("alpha"))
 	before := t.root
 	got, err := t.TryGet(q)
 	vs.Assert(err == nil, "in-memory lookup cannot fail")
